@@ -290,7 +290,7 @@ def c04_direct(case, obs):
         txt = _fmt(o)
         if re.search(r"(?<![\w\"])(panic|crash|hang)(?![\w\"])", txt):
             names = {"u": "Unserialize", "v": "Validate", "s": "Serialize", "c": "ValidateCompatibility", "rt": "the round trip",
-                     "x": "Unserialize", "ty": "a typed entry point"}
+                     "x": "Unserialize", "ty": "a typed entry point", "sr": "Serialize / Unserialize of its result"}
             return "%s panicked on a struct-mapped schema: %s" % (names.get(op[0], op[0]), _describe(schema, op))
     return None
 
@@ -382,6 +382,16 @@ def c03_direct(case, obs):
     oo = _obs_ops(obs)
     if oo is None:
         return None
+    # "a one-of value is routed solely by its discriminator": what Serialize of a one-of returns carries the discriminator
+    if _head(schema) == "oneof":
+        field = _s(schema[3])
+        for op, o in zip(ops, oo):
+            w = o if op[0] == "s" else (o[1] if op[0] == "sr" and isinstance(o, list) and len(o) > 1 else None)
+            if isinstance(w, list) and _cls(w) == "ok" and isinstance(w[1], list) and w[1][0] == "m":
+                keys = [_s(e[0][2]) for e in w[1][3:] if isinstance(e[0], list) and e[0][0] == "s"]
+                if field not in keys:
+                    return ("C03: Serialize of a one-of returned %s without the discriminator %r - the value cannot be routed back to "
+                            "its member: %s" % (_fmt(w)[:300], field, _describe(schema, op)))
     byval = {}
     for op, o in zip(ops, oo):
         if op[0] in ("v", "s") and _cls(o) in ("ok", "err"):
@@ -392,7 +402,98 @@ def c03_direct(case, obs):
                     "treat-empty-as-default must be applied alike on both paths): %s"
                     % ("accepts" if d["v"][0] == "ok" else "rejects", "accepts" if d["s"][0] == "ok" else "rejects",
                        _describe(schema, d["v"][1])))
+    for op, o, _i, why in c03_native_dispatch_findings(case, obs):
+        return ("C03: a one-of with an inlined discriminator serialized the native value %s to %s, which Unserialize %s: Serialize "
+                "dispatched the value by its Go type, Unserialize routes the same content by its discriminator (one dispatch rule "
+                "for raw and native values): %s" % (_fmt(op[1])[:300], _fmt(o[1])[:300], why, _describe(schema, op)))
     return None
+
+
+def _native_type(v):
+    """the Go type of a native struct value as printed: (st T ...) / (p (ptr T) (st T ...))"""
+    if isinstance(v, list) and v:
+        if v[0] == "st":
+            return _fmt(v[1])
+        if v[0] == "p":
+            return _fmt(v[1])
+    return None
+
+
+def c03_native_dispatch_findings(case, obs):
+    """top-level one-of with an INLINED discriminator (members without presence rules between properties): a native value that
+    Serialize accepts must come back from Unserialize as a value of the same Go type"""
+    schema, ops = _payload(case)
+    oo = _obs_ops(obs)
+    if oo is None or _head(schema) != "oneof" or schema[4] != "1":
+        return
+    for i, (op, o) in enumerate(zip(ops, oo)):
+        if op[0] != "sr" or not isinstance(o, list) or len(o) < 3 or _cls(o[1]) != "ok":
+            continue
+        t = _native_type(op[1])
+        if t is None:
+            continue
+        if _cls(o[2]) != "ok":
+            yield op, o, i, "rejects (%s)" % _fmt(o[2])[:120]
+        elif _native_type(o[2][1]) != t:
+            yield op, o, i, "returns as a value of another member's type (%s)" % _fmt(o[2][1])[:200]
+
+
+def _own_discriminator(schema, v):
+    """(key of the member whose Go type is the native value's, the value of the native value's own discriminator field or None)"""
+    field = _s(schema[3])
+    st = v
+    if isinstance(v, list) and v and v[0] == "p" and isinstance(v[2], list):
+        st = v[2]
+    if not (isinstance(st, list) and st and st[0] == "st"):
+        return None, None
+    ptr = v[0] == "p"
+    key = None
+    fname = None
+    for m in schema[2]:
+        mo = m[1]
+        if _head(mo) == "xobject" and ["struct", mo[4][1]] == st[1] and (mo[4][2] == "1") == ptr:
+            key = _s(m[0])
+            f = _fields(mo).get(field)
+            fname = _s(f[1]) if f else None
+    if key is None or fname is None:
+        return key, None
+    for fv in st[2:]:
+        if _s(fv[0]) == fname:
+            x = fv[1]
+            if isinstance(x, list) and x[0] == "p":
+                x = x[2]
+            if isinstance(x, list) and x[0] in ("s", "i"):
+                return key, _s(x[2])
+    return key, None
+
+
+def known_d85(m, case, obs, pred):
+    """inlined one-of, native STRUCT value whose own discriminator field is set to something else than the key of the member
+    with its Go type: dispatched by type by Validate / Serialize, by content by Unserialize.  Matches only when these are the
+    only C03 findings of the case, each on such a value, each exactly as the faithful model predicts."""
+    schema, ops = _payload(case)
+    if list(c03_findings(case, obs)):
+        return False
+    fs = list(c03_native_dispatch_findings(case, obs))
+    if not fs:
+        return False
+    first = c03_direct(case, obs)
+    if first is None or "dispatched the value by its Go type" not in first:
+        return False          # some other C03 finding comes first
+    field = _s(schema[3])
+    for op, o, i, _why in fs:
+        key, _own = _own_discriminator(schema, op[1])
+        # the discriminator Serialize emitted (the member's own field: set to another key, or - a non-pointer field without
+        # treat-empty-as-default - its zero value) is not the key of the member the value was dispatched to
+        emitted = None
+        for e in o[1][1][3:]:
+            if isinstance(e[0], list) and e[0][0] == "s" and _s(e[0][2]) == field and isinstance(e[1], list) and e[1][0] in ("s", "i"):
+                emitted = _s(e[1][2])
+        if key is None or emitted is None or emitted == key:
+            return False
+        if not _model_agrees(obs, pred, i):
+            return False
+    return True
 
 
 # ---- known-finding classes ----
@@ -446,7 +547,7 @@ def struct_stats(rows):
         facts_n["scope"] += 1 if _head(schema) == "scope" else 0
         for s in set(f["structs"]):
             structs[s] = structs.get(s, 0) + 1
-        oo = _obs_ops(obs)
+        oo = _obs_ops(re.sub(r"^\(obs \S+ (.*)\)$", r"\1", obs))     # the statistics rows carry the whole (obs ID ...) line
         h = hashlib.sha1(re.sub(r"^\(case \S+ ", "", case).encode()).digest()
         new = h not in distinct
         distinct.add(h)
@@ -454,13 +555,13 @@ def struct_stats(rows):
         for i, op in enumerate(ops):
             opk[op[0]] = opk.get(op[0], 0) + 1
             o = oo[i] if oo is not None and i < len(oo) else None
-            c = "?" if o is None else (_cls(o[1]) if op[0] in ("rt", "x", "ty") and isinstance(o, list) and len(o) > 1 else _cls(o))
+            c = "?" if o is None else (_cls(o[1]) if op[0] in ("rt", "x", "ty", "sr") and isinstance(o, list) and len(o) > 1 else _cls(o))
             key = "%s:%s" % (op[0], c)
             outcomes[key] = outcomes.get(key, 0) + 1
             # non-trivial: Unserialize produced a struct, or Validate/Serialize looked into a value of the right struct type
             if op[0] in ("rt", "x", "ty") and c == "ok":
                 nt = True
-            if op[0] in ("v", "s") and c in ("ok", "err") and isinstance(op[1], list) and op[1][0] in ("st", "p"):
+            if op[0] in ("v", "s", "sr") and c in ("ok", "err") and isinstance(op[1], list) and op[1][0] in ("st", "p"):
                 nt = True
         if new and nt:
             nontrivial += 1
@@ -504,6 +605,10 @@ def struct_explain(prop):
                     return ("C03: Unserialize returns %s where the object rules (a supplied value is kept, an absent property "
                             "with a default receives its declared default) determine %s: %s"
                             % (_fmt(ou)[:300], _fmt(pu)[:300], _describe(schema, op)))
+            if prop.endswith("C03") and op[0] in ("v", "s", "sr"):
+                return ("C03: %s of a native value gives %s where the key, type, presence and dispatch rules determine %s: %s"
+                        % ({"v": "Validate", "s": "Serialize", "sr": "Serialize, then Unserialize of the result,"}[op[0]],
+                           _fmt(o)[:300], _fmt(p)[:300], _describe(schema, op)))
             if prop.endswith("C04") and re.search(r"panic|crash|hang", _fmt(o)):
                 return "C04: %s on %s" % (_fmt(o)[:100], _describe(schema, op))
         return None
@@ -545,6 +650,7 @@ def register(props):
     props.KNOWN_PREDICATES["struct_d41"] = known_d41
     props.KNOWN_PREDICATES["struct_d44"] = known_d44
     props.KNOWN_PREDICATES["struct_subdefault_cycle"] = known_cycle
+    props.KNOWN_PREDICATES["struct_oneof_native_discriminator"] = known_d85
     direct = {"C01": c01_direct, "C03": c03_direct, "C04": c04_direct}
     for real, f in direct.items():
         props.DIRECT[(real, "structobj")] = f
